@@ -236,6 +236,10 @@ def normalise_code(text, fired):
         if cut < 0 or not recv:
             raise GenError('N16: not a range-indexed copy_from_slice')
         lo, hi = inner[:cut].strip(), inner[cut + 2:].strip()
+        if not lo:
+            lo = '0'
+        if not hi:
+            hi = '%s.len()' % recv
         argo = mm.end() - 1
         argc = match_close(m, argo)
         arg = text[argo + 1:argc]
